@@ -175,6 +175,21 @@ func (s *Service) Execute(ctx context.Context, name string, args []interface{}) 
 		}
 	}
 	f := method.Func()
+	// a nil argument (for a parameter of interface type) has no reflect.Value of its own:
+	// pass the zero value of the parameter's type
+	ft := f.Type()
+	for i := range in {
+		if !in[i].IsValid() {
+			switch {
+			case !ft.IsVariadic() || i < ft.NumIn()-1:
+				if i < ft.NumIn() {
+					in[i] = reflect.Zero(ft.In(i))
+				}
+			default:
+				in[i] = reflect.Zero(ft.In(ft.NumIn() - 1).Elem())
+			}
+		}
+	}
 	out := f.Call(in)
 	n = len(out)
 	if method.ReturnError() {
